@@ -684,13 +684,13 @@ def check(ctx):
     ctx.rule("R18.2", "eager_parse: words first in order; cups only between adjacent adjoints; the layer's slices partition the scan; returns only under cod == target")
     ctx.rule("R18.3", "CFG.generate: only the grammar's productions, applied only to a matching leftmost symbol; sentences yielded only when closed")
     ctx.rule("R18.4", "cat2ty slash directions; tree2diagram rule table and assembly")
-    check_translation(ctx)
-    check_eager_parse(ctx)
-    check_cfg(ctx)
-    check_ccg(ctx)
+    ctx.attempt(check_translation, ctx)
+    ctx.attempt(check_eager_parse, ctx)
+    ctx.attempt(check_cfg, ctx)
+    ctx.attempt(check_ccg, ctx)
     ctx.rule("R18.5", "the biclosed rule boxes refuse operands that are not slash types of the required direction or do not share their middle type")
-    check_box_guards(ctx)
-    check_slash_equality(ctx)
+    ctx.attempt(check_box_guards, ctx)
+    ctx.attempt(check_slash_equality, ctx)
     ctx.rule("R18.6", "what the front-ends rely on: equality of rigid objects / types (C03), swaps for the crossed compositions (C10)")
     ctx.depend("R18.6", "C03", "parsers return only when cod == target and derivations compose only when types are equal: equality of rigid objects and types is structural (name and winding number)",
                rules={"R03.1", "R03.2"}, constructs=["discopy.rigid.Ob", "discopy.rigid.Ty", "discopy.monoidal.Ty", "discopy.cat.Ob"], mod="discopy.rigid")
